@@ -2,6 +2,7 @@ mod backend;
 mod batch;
 mod c06;
 mod c10;
+mod crash;
 mod oracle;
 mod party;
 mod pipe;
